@@ -72,4 +72,23 @@ def cutsPair (a b : List Nat) : Bool := endsLead a && isTrail (b.head?.getD 0)
 def PairAdditive (tr : List Nat → Bytes) : Prop :=
   tr [] = [] ∧ ∀ a b, cutsPair a b = false → tr (a ++ b) = tr a ++ tr b
 
+/-! ## a concrete pair-aware transcoder: UTF-16 code units → UTF-8 bytes -/
+
+/-- one BMP unit (a lone surrogate is encoded like any other unit: CESU-style, never asked for by well-formed text) -/
+def utf8Unit (u : Nat) : Bytes :=
+  if u < 0x80 then [u] else if u < 0x800 then [0xC0 + u / 64, 0x80 + u % 64]
+  else [0xE0 + u / 4096, 0x80 + u / 64 % 64, 0x80 + u % 64]
+
+/-- a surrogate pair: one supplementary code point, four bytes -/
+def utf8Pair (h l : Nat) : Bytes :=
+  let c := 0x10000 + (h - 0xD800) * 1024 + (l - 0xDC00)
+  [0xF0 + c / 262144, 0x80 + c / 4096 % 64, 0x80 + c / 64 % 64, 0x80 + c % 64]
+
+def trUtf8 : List Nat → Bytes
+  | [] => []
+  | [u] => utf8Unit u
+  | h :: l :: r =>
+    if isLead h && isTrail l then utf8Pair h l ++ trUtf8 r
+    else utf8Unit h ++ trUtf8 (l :: r)
+
 end XalanModel.C05
